@@ -316,6 +316,11 @@ func checkC05(r *Run) {
 	for _, m := range longMsgs {
 		msgs = append(msgs, m)
 	}
+	// CR/LF bytes in front of the start line (keep-alives): rejected by the library as it is, but if they are ever
+	// accepted the raw-message view still has to begin at the start offset, under every chunking
+	for _, m := range longMsgs[:3] {
+		msgs = append(msgs, "\r\n"+m, "\r\n\r\n"+m, "\n"+m)
+	}
 	nMenu := 0
 	for i, m := range msgs {
 		if strings.HasPrefix(m, "INVITE sip:a SIP/2.0\r\n") && strings.Contains(m, "CSeq: 1 INVITE\r\nl: 0") {
